@@ -447,7 +447,11 @@ func runCodec(t *testing.T, scAny any, trace bool) *Outcome {
 		simrt.Event("scenario %x", simrt.Hash(hashBytes(mustJSON(sc))))
 		r := simrt.NewRand(sc.Seed)
 		for i := 0; i < sc.N; i++ {
-			switch r.Int(5) {
+			switch r.Int(7) {
+			case 5:
+				codecXdrPrimitives(o, r)
+			case 6:
+				codecRecordOverLimit(o, r)
 			case 0:
 				codecCall(o, r)
 			case 1:
@@ -672,6 +676,162 @@ func codecRecordStream(o *Outcome, r *simrt.Rand) {
 	}
 }
 
+// XDR strings and file handles: decode to what was encoded, consume exactly the padded length,
+// lengths beyond the limits are refused before an allocation of that size.
+func codecXdrPrimitives(o *Outcome, r *simrt.Rand) {
+	tail := []byte("SENTINEL-TAIL")
+	if r.Pct(50) {
+		// file handle opaque<64>: every length 0..66 and a few absurd ones
+		l := r.Int(67)
+		if r.Pct(10) {
+			l = []int{65, 100, 1 << 20, 1<<31 - 1}[r.Int(4)]
+		}
+		body := randBytes(r, 0)
+		if l <= 64 {
+			body = randBytes(r, l)
+		}
+		e := (&nfsclient.Enc{})
+		e.U32(uint32(l))
+		e.Raw(body)
+		for pad := (4 - l%4) % 4; l <= 64 && pad > 0; pad-- {
+			e.Raw([]byte{0})
+		}
+		wire := append(e.B, tail...)
+		rd := bytes.NewReader(wire)
+		var h uint64
+		var err error
+		alloc := allocDuring(func() { h, err = absnfs.VerifXdrDecodeFileHandle(rd) })
+		o.Checks++
+		facts := fmt.Sprintf("len=%d", l)
+		if l > 64 {
+			facts = "len>64"
+		}
+		switch {
+		case l > 64:
+			if err == nil {
+				o.Vio("C13.oversize-handle-accepted", "", "file handle of declared length %d accepted (limit 64)", l)
+			} else if alloc > 1<<16 {
+				o.Vio("C13.oversize-handle-allocated", "", "file handle of declared length %d refused only after allocating %d bytes", l, alloc)
+			}
+		case l == 8:
+			want := uint64(0)
+			for _, b := range body {
+				want = want<<8 | uint64(b)
+			}
+			if err != nil || h != want {
+				o.Vio("C13.handle-roundtrip", facts, "8-byte handle %x decoded to %d, err %v", body, h, err)
+			}
+			if rd.Len() != len(tail) {
+				o.Vio("C13.handle-consumption", facts, "decoder left %d bytes, want the %d-byte tail", rd.Len(), len(tail))
+			}
+		default:
+			// not a handle this server issued: refused, but the stream stays in step (exactly the padded length is consumed)
+			if err == nil {
+				o.Vio("C13.foreign-handle-accepted", facts, "handle of %d bytes decoded without error", l)
+			}
+			if rd.Len() != len(tail) {
+				o.Vio("C13.handle-consumption", facts, "decoder of a %d-byte handle left %d bytes unread, want exactly the %d-byte tail (padded length consumed)", l, rd.Len(), len(tail))
+			}
+		}
+		// encode then decode is the identity
+		var buf bytes.Buffer
+		v := r.Uint64()
+		if absnfs.VerifXdrEncodeFileHandle(&buf, v) == nil {
+			if got, err := absnfs.VerifXdrDecodeFileHandle(bytes.NewReader(buf.Bytes())); err != nil || got != v || buf.Len() != 12 {
+				o.Vio("C13.handle-roundtrip", "encode", "handle %d encodes to %d bytes and decodes to %d (err %v)", v, buf.Len(), got, err)
+			}
+		}
+		return
+	}
+	// string<8192>
+	l := []int{0, 1, 2, 3, 4, 5, 6, 7, 8, 9, 255, 8191, 8192, 8193, 1 << 20, 1<<32 - 1}[r.Int(16)]
+	var wire []byte
+	var want string
+	if l <= 8192 {
+		b := randBytes(r, l)
+		for i := range b {
+			if b[i] == 0 {
+				b[i] = 1 // the decoder refuses NUL bytes on purpose (names); not part of this exercise
+			}
+		}
+		want = string(b)
+		e := (&nfsclient.Enc{})
+		e.U32(uint32(l))
+		e.Raw(b)
+		for pad := (4 - l%4) % 4; pad > 0; pad-- {
+			e.Raw([]byte{0})
+		}
+		wire = append(e.B, tail...)
+	} else {
+		e := (&nfsclient.Enc{})
+		e.U32(uint32(l))
+		wire = append(e.B, make([]byte, 64)...)
+	}
+	rd := bytes.NewReader(wire)
+	var got string
+	var err error
+	alloc := allocDuring(func() { got, err = absnfs.VerifXdrDecodeString(rd) })
+	o.Checks++
+	facts := fmt.Sprintf("len=%d", l)
+	if l > 8192 {
+		if err == nil {
+			o.Vio("C13.oversize-string-accepted", facts, "string of declared length %d accepted (limit 8192)", l)
+		} else if alloc > 1<<16 {
+			o.Vio("C13.oversize-string-allocated", facts, "string of declared length %d refused only after allocating %d bytes", l, alloc)
+		}
+		return
+	}
+	if err != nil || got != want {
+		o.Vio("C13.string-roundtrip", facts, "string of %d bytes decoded to %d bytes, err %v", l, len(got), err)
+		return
+	}
+	if rd.Len() != len(tail) {
+		o.Vio("C13.string-consumption", facts, "decoder left %d bytes unread, want exactly the %d-byte tail", rd.Len(), len(tail))
+	}
+	var buf bytes.Buffer
+	if absnfs.VerifXdrEncodeString(&buf, want) == nil {
+		if !bytes.Equal(buf.Bytes(), wire[:len(wire)-len(tail)]) {
+			o.Vio("C13.string-encoding", facts, "string of %d bytes encodes to %d bytes, the independent codec gives %d", l, buf.Len(), len(wire)-len(tail))
+		}
+	}
+}
+
+// A record whose fragments are each within the limit but whose total exceeds it is refused,
+// and refused before the excess is buffered.
+func codecRecordOverLimit(o *Outcome, r *simrt.Rand) {
+	fragLen := []int{1 << 19, 1 << 18, 1<<20 - 4, 700000}[r.Int(4)]
+	nfr := 3 + r.Int(4)
+	total := 0
+	var hdrs [][]byte
+	for i := 0; i < nfr; i++ {
+		total += fragLen
+		h := uint32(fragLen)
+		if i == nfr-1 {
+			h |= 0x80000000
+		}
+		hdrs = append(hdrs, []byte{byte(h >> 24), byte(h >> 16), byte(h >> 8), byte(h)})
+	}
+	if total <= 1<<20 {
+		return
+	}
+	// stream: header, fragLen zero bytes, header, ...
+	var rs []io.Reader
+	for _, h := range hdrs {
+		rs = append(rs, bytes.NewReader(h), io.LimitReader(zeroReader{}, int64(fragLen)))
+	}
+	rd := absnfs.NewRecordMarkingReader(io.MultiReader(rs...))
+	var err error
+	var got []byte
+	alloc := allocDuring(func() { got, err = rd.ReadRecord() })
+	o.Checks++
+	facts := fmt.Sprintf("fragments-within-limit")
+	if err == nil {
+		o.Vio("C13.oversize-record-accepted", facts, "record of %d fragments of %d bytes (%d in total, limit 1 MiB) was reassembled to %d bytes", nfr, fragLen, total, len(got))
+	} else if alloc > 3<<20 {
+		o.Vio("C13.oversize-record-allocated", facts, "record of %d bytes in fragments of %d was refused only after allocating %d bytes", total, fragLen, alloc)
+	}
+}
+
 type chunkReader struct {
 	b []byte
 	r *simrt.Rand
@@ -716,7 +876,7 @@ func init() {
 		Gen:  genC10, New: func() any { return &AuthScn{} }, Run: runAuth,
 		Real: []string{"ValidateAuthentication", "applySquashing", "ParseAuthSysCredential"}, Stubbed: []string{"nothing relevant (pure function)"}})
 	Register(&Prop{ID: "C13", Level: "exploration",
-		Rule: "one case = 40-200 codec exercises drawn from: DecodeRPCCall on calls encoded by the independent codec with credential/verifier body lengths 0..9, 399, 400, 401 and a sentinel tail (exact decode, exact consumption, over-limit refused); ParseAuthSysCredential with 0..18 and 100 gids and machine names of 0..5, 255, 8191..8193 bytes and random truncations; EncodeRPCReply decoded by the independent strict RFC 1831 decoder for every reply_stat/accept_stat; RecordMarkingWriter (maxFragment 1..1 MiB) read back by the independent reader and by RecordMarkingReader (identity, incl. records of limit-1 and limit bytes); RecordMarkingReader fed records split into up to 40 fragments (zero-length and 1-byte fragments included) through a reader returning arbitrary 1..7-byte segments, streams cut at every kind of offset (error, never a partial record), and headers declaring 1 MiB+1 .. 2^31-1 bytes (refused, with TotalAlloc growth < 512 KiB); non-trivial = at least one exercise; distinct by event digest. XDR string and file-handle decoders are unexported: their limits are exercised through the server in C14/C15.",
+		Rule: "one case = 40-200 codec exercises drawn from: DecodeRPCCall on calls encoded by the independent codec with credential/verifier body lengths 0..9, 399, 400, 401 and a sentinel tail (exact decode, exact consumption, over-limit refused); ParseAuthSysCredential with 0..18 and 100 gids and machine names of 0..5, 255, 8191..8193 bytes and random truncations; EncodeRPCReply decoded by the independent strict RFC 1831 decoder for every reply_stat/accept_stat; RecordMarkingWriter (maxFragment 1..1 MiB) read back by the independent reader and by RecordMarkingReader (identity, incl. records of limit-1 and limit bytes); RecordMarkingReader fed records split into up to 40 fragments (zero-length and 1-byte fragments included) through a reader returning arbitrary 1..7-byte segments, streams cut at every kind of offset (error, never a partial record), and headers declaring 1 MiB+1 .. 2^31-1 bytes (refused, with TotalAlloc growth < 512 KiB); non-trivial = at least one exercise; distinct by event digest. Also: the XDR string<8192> and file-handle opaque<64> decoders (reached through wrappers in the overlay accessor file) with every length 0..66, 8191..8193 and absurd declared lengths (exact value, exact padded consumption also for refused foreign-size handles, refusal before allocation); records whose 3-6 fragments are each within the limit but whose total exceeds 1 MiB (refused, TotalAlloc growth < 3 MiB).",
 		Gen: func(r *simrt.Rand, tier string) any {
 			return &CodecScn{Seed: r.Uint64(), N: 40 + r.Int(160), Sched: SeqSched(r.Uint64())}
 		}, New: func() any { return &CodecScn{} }, Run: runCodec,
